@@ -372,7 +372,7 @@ Theorem reparse_lines o ind exs s items :
   exs <> [] ->
   Forall (fun e => ex_ind e = ind) exs ->
   Chain (o_bal o) TEXT O (map BEx exs) ->
-  splitlines (normalize_docstring s) = exs_lines exs ->
+  srclines (normalize_docstring s) = exs_lines exs ->
   Forall LineOK (exs_lines (map ex0 exs)) ->
   parse o s = Parsed items ->
   parse o (join_nl (exs_lines (map ex0 exs))) = Parsed items.
@@ -389,7 +389,7 @@ Proof.
   destruct (package_groups o gs 0) as [its|e] eqn:P; [|destruct e; discriminate].
   (* the displayed text *)
   unfold parse. rewrite EF, normalize_displayed by (rewrite <- EF; exact HOK).
-  unfold label_lines. rewrite splitlines_join.
+  unfold label_lines. rewrite srclines_join.
   2:{ rewrite <- EF. rewrite Forall_forall in *. intros l Hl. split; [apply (HOK l Hl)|].
       destruct (HH l Hl) as (c & r & E & _). subst l. discriminate. }
   rewrite <- EF. unfold exs_lines at 1. rewrite (labels_as_intended_from _ _ _ _ HC0).
@@ -419,7 +419,7 @@ Lemma format_part_shown p startline nd : ShownOK p -> orig_lines p <> [] ->
   format_part p (mkFmt false true true None) startline nd = join_nl (all_lines p).
 Proof.
   intros [A C] NE. unfold format_part, format_part_pieces. simpl.
-  rewrite !splitlines_join by assumption. rewrite map_id. unfold all_lines.
+  rewrite !srclines_join by assumption. rewrite map_id. unfold all_lines.
   destruct (want_lines p) as [|w ws] eqn:W; [rewrite app_nil_r; reflexivity|].
   rewrite join_nl_app by (try assumption; discriminate). reflexivity.
 Qed.
@@ -547,7 +547,7 @@ Theorem reparse_displayed o ind exs s items off lineno :
   exs <> [] ->
   Forall (fun e => ex_ind e = ind) exs ->
   Chain (o_bal o) TEXT O (map BEx exs) ->
-  splitlines (normalize_docstring s) = exs_lines exs ->
+  srclines (normalize_docstring s) = exs_lines exs ->
   Forall LineOK (exs_lines (map ex0 exs)) ->
   parse o s = Parsed items ->
   format_src (parts_of items) false true off true false lineno = join_nl (exs_lines (map ex0 exs)) /\
@@ -594,7 +594,7 @@ Definition demo_doc : str := [62;62;62;32;97;10;62;62;62;32;98;10;119]%N.
 Example demo_reparse_hyps :
   AstInRange demo_oracle /\ demo_exs <> [] /\ Forall (fun e => ex_ind e = 0) demo_exs /\
   Chain (o_bal demo_oracle) TEXT 0 (map BEx demo_exs) /\
-  splitlines (normalize_docstring demo_doc) = exs_lines demo_exs /\
+  srclines (normalize_docstring demo_doc) = exs_lines demo_exs /\
   Forall LineOK (exs_lines (map ex0 demo_exs)) /\
   exists items, parse demo_oracle demo_doc = Parsed items /\ length (parts_of items) = 2.
 Proof.
@@ -614,8 +614,8 @@ Qed.
 Theorem display_is_docstring o s items off lineno :
   AstInRange o -> parse o s = Parsed items -> Forall ShownOK (parts_of items) ->
   exists (ll : list (label * str)) gs,
-    length ll = length (splitlines (normalize_docstring s)) /\
-    Forall2 SameLineUpToHack ll (splitlines (normalize_docstring s)) /\
+    length ll = length (srclines (normalize_docstring s)) /\
+    Forall2 SameLineUpToHack ll (srclines (normalize_docstring s)) /\
     flatten_chunks gs = map snd ll /\
     format_src (parts_of items) false true off true false lineno = join_nl (concat (map chunk_shown gs)).
 Proof.
@@ -747,7 +747,7 @@ Proof.
   pose proof (exs0_lines_heads _ HW) as HH.
   destruct (exs0_first _ _ _ _ NE HC) as (code & rest & EF).
   unfold parse. rewrite EF, normalize_displayed by (rewrite <- EF; exact HOK).
-  unfold label_lines. rewrite splitlines_join.
+  unfold label_lines. rewrite srclines_join.
   2:{ rewrite <- EF. rewrite Forall_forall in *. intros l Hl. split; [apply (HOK l Hl)|].
       destruct (HH l Hl) as (c & r & E & _). subst l. discriminate. }
   rewrite <- EF. unfold exs_lines at 1. rewrite (labels_as_intended_from _ _ _ _ HC0).
@@ -904,7 +904,7 @@ Qed.
 Theorem reparse_prose_around o ind exs p0 p1 s items off lineno :
   AstInRange o -> exs <> [] -> Forall (fun e => ex_ind e = ind) exs ->
   Chain (o_bal o) TEXT O (BProse p0 :: map BEx exs ++ [BProse p1]) ->
-  splitlines (normalize_docstring s) = concat (map block_lines (BProse p0 :: map BEx exs ++ [BProse p1])) ->
+  srclines (normalize_docstring s) = concat (map block_lines (BProse p0 :: map BEx exs ++ [BProse p1])) ->
   Forall LineOK (exs_lines (map ex0 exs)) ->
   parse o s = Parsed items ->
   format_src (parts_of items) false true off true false lineno = join_nl (exs_lines (map ex0 exs)) /\
@@ -968,7 +968,7 @@ Definition demo_doc2 : str :=
 Example demo_prose_around_hyps :
   demo_exs4 <> [] /\ Forall (fun e => ex_ind e = 4) demo_exs4 /\
   Chain (o_bal demo_oracle) TEXT 0 (BProse demo_p0 :: map BEx demo_exs4 ++ [BProse demo_p1]) /\
-  splitlines (normalize_docstring demo_doc2) = concat (map block_lines (BProse demo_p0 :: map BEx demo_exs4 ++ [BProse demo_p1])) /\
+  srclines (normalize_docstring demo_doc2) = concat (map block_lines (BProse demo_p0 :: map BEx demo_exs4 ++ [BProse demo_p1])) /\
   Forall LineOK (exs_lines (map ex0 demo_exs4)) /\
   exists items, parse demo_oracle demo_doc2 = Parsed items /\ map line_offset (parts_of items) = [2; 3].
 Proof.
@@ -1419,7 +1419,7 @@ Theorem reparse_sections o secs pend s items off lineno :
   Forall (fun sec => s_exs sec <> [] /\ Forall (fun e => ex_ind e = s_ind sec) (s_exs sec)) secs ->
   WantEndsS secs ->
   Chain (o_bal o) TEXT O (doc_blocks secs pend) ->
-  splitlines (normalize_docstring s) = concat (map block_lines (doc_blocks secs pend)) ->
+  srclines (normalize_docstring s) = concat (map block_lines (doc_blocks secs pend)) ->
   Forall LineOK (exs_lines (map ex0 (all_exs secs))) ->
   parse o s = Parsed items ->
   format_src (parts_of items) false true off true false lineno = join_nl (exs_lines (map ex0 (all_exs secs))) /\
@@ -1482,7 +1482,7 @@ Proof.
     assert (NEB : all_exs secs <> []) by (intros E; rewrite E in NEA; apply NEA; reflexivity).
     destruct (exs0_first_ok (o_bal o) (all_exs secs) NEB OKA) as (code & rest & EF).
     unfold parse. rewrite EF, normalize_displayed by (rewrite <- EF; exact HOK).
-    unfold label_lines. rewrite splitlines_join.
+    unfold label_lines. rewrite srclines_join.
     2:{ rewrite <- EF. rewrite Forall_forall in *. intros l Hl. split; [apply (HOK l Hl)|].
         destruct (HH l Hl) as (c & r & E & _). subst l. discriminate. }
     rewrite <- EF. unfold exs_lines at 1. rewrite (labels_as_intended_from _ _ _ _ HC0), all_X0.
@@ -1509,7 +1509,7 @@ Example demo_sections_hyps :
   Forall (fun sec => s_exs sec <> [] /\ Forall (fun e => ex_ind e = s_ind sec) (s_exs sec)) demo_secs /\
   WantEndsS demo_secs /\
   Chain (o_bal demo_oracle) TEXT 0 (doc_blocks demo_secs demo_pend) /\
-  splitlines (normalize_docstring demo_doc3) = concat (map block_lines (doc_blocks demo_secs demo_pend)) /\
+  srclines (normalize_docstring demo_doc3) = concat (map block_lines (doc_blocks demo_secs demo_pend)) /\
   Forall LineOK (exs_lines (map ex0 (all_exs demo_secs))) /\
   exists items, parse demo_oracle demo_doc3 = Parsed items /\ map line_offset (parts_of items) = [2; 7].
 Proof.
